@@ -209,6 +209,7 @@ type Path struct {
 	Exit  ExitKind
 	Rets  []*T
 	CutAt *ssa.BasicBlock
+	Base  int // number of events that were already in the starting state
 }
 
 func (p *Path) Events() []*Event { return p.State.Events }
@@ -334,7 +335,10 @@ func rootOf(a *T) *T {
 	return a
 }
 
-func isFreshRoot(a *T) bool { return rootOf(a).Op == "alloc" }
+func isFreshRoot(a *T) bool {
+	op := rootOf(a).Op
+	return op == "alloc" || op == "makeslice"
+}
 
 func isAncestor(anc, a *T) bool {
 	for a.Op == "faddr" || a.Op == "iaddr" {
@@ -523,7 +527,11 @@ func (ev *Evaluator) RunFrom(st0 *State, fn *ssa.Function, args []*T, free []*T)
 	st := st0.clone()
 	st.base = len(st.frames)
 	ev.pushFrame(st, fn, args, free, nil, false)
-	return ev.drive(st)
+	ps := ev.drive(st)
+	for _, p := range ps {
+		p.Base = len(st0.Events)
+	}
+	return ps
 }
 
 // CallTerm evaluates a call of the function value fnTerm (closure or func term) in state st.
